@@ -109,14 +109,16 @@ def make_tc(sut, call):
 
 
 def _late_started_thread_during(s, i):
-    """Did the thread of an earlier test take its FIRST step after test i's thread had been started?"""
+    """Did the thread of an earlier (abandoned) test enter the tracer only after test i's thread had been started?"""
     starts = [k for k, (_who, lab, _nxt) in enumerate(s.log) if lab == "thread.start"]
     if i >= len(starts):
         return False
     begin = starts[i]
     end = starts[i + 1] if i + 1 < len(starts) else len(s.log)
     for t in range(1, i + 1):                      # threads of the earlier tests (thread k+1 runs test k)
-        first = next((k for k, (who, _lab, _nxt) in enumerate(s.log) if who == t), None)
+        # the take-over happens in ExecutionTracer.__enter__, i.e. between the thread's 'out.enter' and its
+        # first 'before-stmt': did that happen while test i was running?
+        first = next((k for k, (who, lab, _nxt) in enumerate(s.log) if who == t and lab == "before-stmt"), None)
         if first is not None and begin < first < end:
             return True
     return False
